@@ -62,7 +62,7 @@ manifest = {
     "hooks": {
         "guard": "EPHEMERALNET_VERIF",
         "enable": "harnesses are compiled with -DEPHEMERALNET_VERIF=1 (tools/ephverif/paths.py); no source hook exists, so the define currently selects nothing",
-        "baseline_off_cmd": "cmake -G Ninja -S /repo -B /repo/_build -DCMAKE_BUILD_TYPE=RelWithDebInfo && cmake --build /repo/_build -j16 && ctest --test-dir /repo/_build -j8 --timeout 900",
+        "baseline_off_cmd": "cmake -G Ninja -S /repo -B /repo/_build -DCMAKE_BUILD_TYPE=RelWithDebInfo && (cmake --build /repo/_build -j16 -- -k 0 || true) && ctest --test-dir /repo/_build -j8 --timeout 900",
         "source_commits": [],
         "add_only": True,
     },
